@@ -45,6 +45,7 @@ func (c12) Plan(tier string, seed int64) []mon.Workload {
 		{Name: "typed-captures", N: int64(len(c12CapBases) * len(c12CapTypes) * len(c12CapTypes)), Exhaustive: true},
 		{Name: "shadowing", N: int64(len(c12ShadowBlocks) * len(c12ShadowPairs) * 3), Exhaustive: true},
 		{Name: "redeclare", N: int64(len(c12RedeclForms) * len(c12ShadowPairs) * 2), Exhaustive: true},
+		{Name: "after-guard", N: int64(len(c12GuardForms) * len(c12ShadowPairs)), Exhaustive: true},
 	}
 }
 
@@ -112,6 +113,16 @@ func c12TypedCaptures(i int64) ([]*gt.T, *ref.Point) {
 // OUTER definition again after that block has ended - directly after it, in
 // a later sibling block, and in both places. (References inside the block
 // after the redefinition are left to the seeded scopes workload.)
+// after-guard forms are part of the shadowing table: a definition / grok
+// that FOLLOWS a conditional break or continue in a loop body is a statement
+// like any other (checked at load time, compiled, scoped).
+var c12GuardForms = []string{
+	"for e in [1, 2] {\n  if e == 1 {\n    continue\n  }\n  ok2 = grok(_, \"%{al:w2}\")\n  p(ok2, w2)\n}\n",
+	"for i = 0; i < 3; i = i + 1 {\n  if i == 2 {\n    break\n  }\n  add_pattern(\"al\", \"@B@\")\n  add_pattern(\"loc\", \"%{al}\")\n  ok2 = grok(_, \"%{loc:w2}\")\n  p(ok2, w2)\n}\n",
+	"for e in \"ab\" {\n  if e == \"z\" {\n    break\n  } elif e == \"a\" {\n    continue\n  }\n  ok2 = grok(_, \"%{al:w2} %{INT:w3:int}\")\n  p(ok2, w2, w3)\n}\n",
+	"for e in [1] {\n  if e == 5 {\n    continue\n  }\n  ok2 = grok(_, \"%{nosuchalias:w2}\")\n}\n",
+}
+
 var c12ShadowBlocks = [][2]string{{"if true {\n", "}\n"}, {"if false {\n} else {\n", "}\n"}, {"for i = 0; i < 1; i = i + 1 {\n", "}\n"}, {"for e in [1] {\n", "}\n"},
 	{"if true {\n  if true {\n", "  }\n}\n"}, {"if false {\n} elif true {\n", "}\n"}}
 var c12ShadowPairs = [][2]string{{"[a-z]+", "\\\\d+"}, {"\\\\d+", "[a-z]+"}, {"[a-z]+", "\\\\S+ \\\\S+"}, {"\\\\S+ \\\\S+", "\\\\d+"}, {"[a-c]+", "[a-z]+ "}, {"\\\\d", "\\\\d+"}}
@@ -181,6 +192,20 @@ func (c12) build(c *mon.Ctx, workload string, i int64) ([]*gt.T, *ref.Point) {
 	}
 	if workload == "redeclare" {
 		return c12Redeclare(i)
+	}
+	if workload == "after-guard" {
+		pair := c12ShadowPairs[int(i)%len(c12ShadowPairs)]
+		form := c12GuardForms[int(i)/len(c12ShadowPairs)]
+		text := "add_pattern(\"al\", \"" + pair[0] + "\")\n" + strings.ReplaceAll(form, "@B@", pair[1]) + "p(get_key(w2))\n"
+		o := drive.Parse("after-guard", text)
+		if o.Err != nil {
+			panic("c12: after-guard program does not parse: " + text + ": " + o.Err.Error())
+		}
+		l, err := gt.FromStmts(o.Stmts)
+		if err != nil {
+			panic(err)
+		}
+		return gt.CloneStmts(l), ref.NewPoint("m", nil, map[string]any{"message": "abc 12 zz"}, time.Unix(1600000000, 0))
 	}
 	if workload == "typed-captures" {
 		return c12TypedCaptures(i)
